@@ -28,7 +28,9 @@ DEFECTS = [
          input="json_object_new_string(s) with strlen(s) = 2147483648 (2^31 bytes of 'A'); also strlen(s) = 4294967301 (2^32+5)",
          observed="json_object_get_string_len() = -2147483648 and json_object_deep_copy() fails with -1; for 2^32+5 bytes "
                   "get_string_len() = 5 and deep copy returns rc 0 with a 5-byte string that is not equal to the original "
-                  "(reproduced with /verif/build/scratch/str/big.c against the plain library)",
+                  "(reproduced against the plain library with a 12-line C program: s = malloc(n+1); memset(s,'A',n); s[n]=0; "
+                  "o = json_object_new_string(s); json_object_get_string_len(o); json_object_deep_copy(o,&c,NULL); "
+                  "json_object_get_string_len(c); json_object_equal(o,c))",
          expected="the constructor refuses (NULL) what json_object_get_string_len cannot report, as _json_object_set_string_len "
                   "already does (len >= INT_MAX - 1 is refused there)",
          suggested_fix="in _json_object_new_string: `if (len >= INT_MAX - 1) return NULL;` (or `len > INT_MAX`) before the size computation"),
